@@ -43,7 +43,13 @@ def draw_ext(draw, h, univ, bias=True):
 
 def draw_build(draw, h, names, fail_p=0.15, ver_p=0.2):
     nalt = len(h.prog_rel.get('alt_roots', []))
-    if nalt and draw(st.sampled_from(range(4))) == 0:
+    if nalt and draw(st.sampled_from(range(3))) == 0:
+        lc = getattr(h, 'last_committed', None)
+        if lc and lc.get('outputs') and draw(st.sampled_from(range(3))) == 0:
+            # the user deletes an output by hand and then edits the root function (which may no longer request it)
+            outs = sorted(h.relp(p) for p in lc['outputs'] if p.startswith(h.R + '/') and not h.protected(p))
+            if outs:
+                h.failures.extend(h.apply(['rm', draw(st.sampled_from(outs))]))
         h.failures.extend(h.apply(['root', draw(st.integers(0, nalt))]))
     vers = h.last.get('versions', {}) if h.last else {}
     if gen.chance(draw, ver_p):
